@@ -622,6 +622,23 @@ func (w *c08World) replyFrom(from string) error {
 	return nil
 }
 
+// inbound: a packet from `from` arrives at the session's socket and is relayed to the client - an
+// ENVIRONMENT answer: the socket is full-cone, so any host may send to it at any time, including a
+// destination the policy rejects and one the session never addressed. It is judged by the reply
+// clauses (reported from its real source, from the original address in a hooked session); what it
+// must NOT do is change what the policy oracle of the following datagrams expects - the reference
+// (c08World.datagram) does not look at who sent packets to the session. Without a socket there is
+// nothing a packet could arrive at (no-op). Added after the independently seeded change C08-13
+// (the receive loop remembered every source as an "established flow" and Feed skipped the
+// per-datagram policy check for destinations in that set).
+func (w *c08World) inbound(from string) error {
+	w.step++
+	if !w.open {
+		return nil
+	}
+	return w.replyFrom(from)
+}
+
 // cleanupOp: the manager drops every session (what Run does on exit / the idle loop on timeout).
 func (w *c08World) cleanupOp() error {
 	w.step++
@@ -694,15 +711,21 @@ func (c c08Cfg) hook() func(string) (string, bool) {
 	return nil
 }
 
-// c08Op: D >= 0 datagram to d_D (V = owned eviction victim rank), D == -1 cleanup.
+// c08Op: D >= 0 datagram to d_D (V = owned eviction victim rank), D == -1 cleanup; In: a packet
+// FROM d_D arrives at the session's socket instead (environment answer, see c08World.inbound;
+// added after the independently seeded change C08-13).
 type c08Op struct {
-	D int `json:"d"`
-	V int `json:"v"`
+	D  int  `json:"d"`
+	V  int  `json:"v"`
+	In bool `json:"in,omitempty"`
 }
 
 func (o c08Op) String() string {
 	if o.D < 0 {
 		return "cleanup"
+	}
+	if o.In {
+		return fmt.Sprintf("in<-d%d", o.D)
 	}
 	if o.V == 0 {
 		return fmt.Sprintf("d%d", o.D)
@@ -728,6 +751,9 @@ func c08NewSys(cfg c08Cfg) *c08Sys {
 func (s *c08Sys) Apply(op c08Op) error {
 	if op.D < 0 {
 		return s.w.cleanupOp()
+	}
+	if op.In {
+		return s.w.inbound(c08Dests[op.D])
 	}
 	return s.w.datagram(c08Dests[op.D], op.V)
 }
@@ -785,9 +811,56 @@ func c08Remembered(e *udpSessionEntry) string {
 			fmt.Fprintf(&sb, " %s=%d", f.Name, v.Int())
 		case f.Type.Kind() >= reflect.Uint && f.Type.Kind() <= reflect.Uintptr:
 			fmt.Fprintf(&sb, " %s=%d", f.Name, v.Uint())
+		case f.Type.Kind() == reflect.Map:
+			// any SET/TABLE the entry keeps (the decision cache again, and whatever else): sorted
+			// keys with their values where those are plain. Added after the independently seeded
+			// change C08-13 (a sync.Map of "established flows" the key did not see).
+			var ents []string
+			for it := v.MapRange(); it.Next(); {
+				ents = append(ents, c08Plain(it.Key())+"="+c08Plain(it.Value()))
+			}
+			sort.Strings(ents)
+			fmt.Fprintf(&sb, " %s={%s}", f.Name, strings.Join(ents, ";"))
+		case f.Type == reflect.TypeOf(sync.Map{}) && v.CanAddr():
+			var ents []string
+			v.Addr().Interface().(*sync.Map).Range(func(k, x any) bool {
+				ents = append(ents, c08Plain(reflect.ValueOf(k))+"="+c08Plain(reflect.ValueOf(x)))
+				return true
+			})
+			sort.Strings(ents)
+			fmt.Fprintf(&sb, " %s={%s}", f.Name, strings.Join(ents, ";"))
 		}
 	}
 	return sb.String()
+}
+
+// c08Plain renders a map key/value for the state key when it is a plain value (string, bool,
+// integer, nil/non-nil error); anything else (pointers, structs, funcs) by its type only, so that
+// addresses never enter the key.
+func c08Plain(v reflect.Value) string {
+	if !v.IsValid() {
+		return "nil"
+	}
+	if v.Kind() == reflect.Interface {
+		if v.IsNil() {
+			return "nil"
+		}
+		if err, ok := v.Interface().(error); ok {
+			return "err(" + err.Error() + ")"
+		}
+		v = v.Elem()
+	}
+	switch k := v.Kind(); {
+	case k == reflect.String:
+		return fmt.Sprintf("%q", v.String())
+	case k == reflect.Bool:
+		return fmt.Sprint(v.Bool())
+	case k >= reflect.Int && k <= reflect.Int64:
+		return fmt.Sprint(v.Int())
+	case k >= reflect.Uint && k <= reflect.Uintptr:
+		return fmt.Sprint(v.Uint())
+	}
+	return v.Type().String()
 }
 
 // c08Probe: the remaining private state, claimed irrelevant/constant by Key - xstate reports a
@@ -827,13 +900,17 @@ func c08Ops() []c08Op {
 			ops = append(ops, c08Op{D: d, V: v})
 		}
 	}
+	// a packet from d_i (allowed, rejected, addressed before or never) arrives at the session's socket
+	for d := 0; d < c08SearchN; d++ {
+		ops = append(ops, c08Op{D: d, In: true})
+	}
 	return append(ops, c08Op{D: -1})
 }
 
 func c08Enabled(s xstate.Sys[c08Op], op c08Op) bool {
 	w := s.(*c08Sys).w
-	if op.D < 0 {
-		return w.entry() != nil
+	if op.D < 0 || op.In {
+		return w.entry() != nil // a packet can only arrive at a socket the session has
 	}
 	// victim ranks > 0 are distinct operations only when this step evicts
 	return op.V == 0 || w.willEvict(c08Dests[op.D])
@@ -872,10 +949,10 @@ func c08Search(sh *evidence.Shard) {
 		"hook_address":         c08HookAddr,
 		"policies":             fmt.Sprintf("every allow/deny predicate on the %d destinations (%d); with a hook every predicate on the destinations and h (%d)", c08SearchN, 1<<c08SearchN, 2<<c08SearchN),
 		"hook":                 []string{"off", "rewrites every session's first destination to h", "rewrites the first destination to h only when it is d0"},
-		"operations":           "complete unfragmented datagram to d_i (session id fixed) x owned eviction victim (rank among the sorted cached entries, only when the step evicts); cleanup of all sessions",
+		"operations":           "complete unfragmented datagram to d_i (session id fixed) x owned eviction victim (rank among the sorted cached entries, only when the step evicts); cleanup of all sessions; environment answer in<-d_i: a packet FROM d_i (any destination: allowed, rejected, addressed before or never) arrives at the session's full-cone socket and is relayed to the client",
 		"maxSessionACLCache":   fmt.Sprintf("%d (rewritten from 256 so that %d destinations overflow it)", maxSessionACLCache, c08SearchN),
 		"after_each_datagram":  "one reply from the last forwarded destination is pushed through the real receive loop",
-		"canonical_state_key":  "session/socket exists, OverrideAddr, OriginalAddr, sorted aclCache entries with verdicts, and every other string/bool/integer/error field of the entry (whatever else it remembers, by reflection)",
+		"canonical_state_key":  "session/socket exists, OverrideAddr, OriginalAddr, sorted aclCache entries with verdicts, and every other string/bool/integer/error field of the entry plus the sorted contents of every map / sync.Map field (whatever else it remembers, by reflection)",
 		"max_depth":            depth,
 		"eviction_victim_note": "the real code deletes an arbitrary map element; after the step the harness swaps the evicted entry for the enumerated one, so all victims are covered and replays are deterministic; the oracle never depends on the victim",
 	}
@@ -974,7 +1051,18 @@ type c08SeqCase struct {
 	NDest  int   `json:"destinations"`
 	Policy int   `json:"policy"` // bit i: d_i allowed (the hook address is allowed)
 	Hook   bool  `json:"hook"`   // rewrites every session's first destination to h
-	Seq    []int `json:"seq"`    // i >= 0: datagram to d_i; -1: cleanup
+	Seq    []int `json:"seq"`    // i >= 0: datagram to d_i; -1: cleanup; -2-i: a packet FROM d_i arrives at the session's socket
+}
+
+// c08SeqOp decodes one element of c08SeqCase.Seq. The in<-d_i operations (environment answer, see
+// c08World.inbound) were added after the independently seeded change C08-13 (sources of received
+// packets became "established flows" that Feed no longer asked the policy about; it needs the
+// history a, in<-R, R).
+func c08SeqOp(x int) c08Op {
+	if x <= -2 {
+		return c08Op{D: -2 - x, In: true}
+	}
+	return c08Op{D: x}
 }
 
 func (c *c08SeqCase) String() string {
@@ -987,13 +1075,14 @@ func (c *c08SeqCase) String() string {
 		}
 	}
 	for _, x := range c.Seq {
-		ops = append(ops, c08Op{D: x}.String())
+		ops = append(ops, c08SeqOp(x).String())
 	}
 	return fmt.Sprintf("allow{%s}deny{%s},hook=%v,seq=%s", strings.Join(al, ","), strings.Join(dn, ","), c.Hook, strings.Join(ops, ","))
 }
 
 // c08RunSeq runs the case on a fresh manager; failedAt is the index of the violating operation,
-// shape has one letter per executed operation (F forwarded, x not forwarded, c cleanup).
+// shape has one letter per executed operation (F forwarded, x not forwarded, c cleanup, i packet
+// arrived at the socket and was relayed, - packet with no socket to arrive at).
 func c08RunSeq(c *c08SeqCase) (verr error, failedAt int, shape string) {
 	if c.NDest < 1 || c.NDest > len(c08Dests) {
 		return c08Bad("unknown-case", "%d destinations", c.NDest), 0, ""
@@ -1018,8 +1107,19 @@ func c08RunSeq(c *c08SeqCase) (verr error, failedAt int, shape string) {
 	defer w.teardown()
 	var sb strings.Builder
 	for i, x := range c.Seq {
-		if x >= c.NDest {
-			return c08Bad("unknown-case", "destination d%d", x), i, sb.String()
+		if op := c08SeqOp(x); op.D >= c.NDest {
+			return c08Bad("unknown-case", "destination d%d", op.D), i, sb.String()
+		} else if op.In {
+			wasOpen := w.open
+			if err := w.inbound(ds[op.D]); err != nil {
+				return err, i, sb.String()
+			}
+			if wasOpen {
+				sb.WriteByte('i')
+			} else {
+				sb.WriteByte('-')
+			}
+			continue
 		}
 		if x < 0 {
 			if err := w.cleanupOp(); err != nil {
@@ -1044,79 +1144,122 @@ func c08RunSeq(c *c08SeqCase) (verr error, failedAt int, shape string) {
 func c08Sequences(sh *evidence.Shard) {
 	env := sh.Env()
 	p := sh.Part("sequences", "enum")
-	n, length := 3, 5
+	// families of sequences: N destinations, exactly Len operations, with or without the in<-d_i
+	// operations (a packet FROM d_i arrives at the session's socket: environment answer, added after
+	// the independently seeded change C08-13, see c08SeqOp). The quick tier has them in its one
+	// family; the thorough tier keeps the longest family for datagrams and cleanups alone and adds
+	// the packets from d_i at one destination less / one operation less (9^6 x 32 cases otherwise).
+	fams := []c08SeqFamily{{N: 3, Len: 5, In: true}}
 	if env.Thorough() {
-		n, length = 4, 6
+		fams = []c08SeqFamily{{N: 4, Len: 6}, {N: 3, Len: 6, In: true}, {N: 4, Len: 5, In: true}}
+	}
+	maxN, maxLen := 0, 0
+	var famNames []string
+	for _, f := range fams {
+		if f.N > maxN {
+			maxN = f.N
+		}
+		if f.Len > maxLen {
+			maxLen = f.Len
+		}
+		famNames = append(famNames, f.String())
 	}
 	p.Alphabet = map[string]any{
-		"destinations":       c08Dests[:n],
-		"operations":         "complete unfragmented datagram to d_i; cleanup of all sessions",
-		"sequence":           fmt.Sprintf("every sequence of exactly %d operations in one session id on a fresh manager (every shorter sequence is a prefix, judged step by step), NO state merging; one simulated reply after every forwarded datagram", length),
-		"policies":           fmt.Sprintf("every allow/deny predicate on the %d destinations (%d); the hook address is allowed", n, 1<<n),
+		"destinations":       c08Dests[:maxN],
+		"operations":         "complete unfragmented datagram to d_i; cleanup of all sessions; environment answer in<-d_i: a packet FROM d_i (any of the destinations: allowed, rejected, addressed before or never) arrives at the session's full-cone socket and is relayed to the client (nothing happens while the session has no socket)",
+		"sequence":           "for each family: every sequence of exactly Len operations in one session id on a fresh manager (every shorter sequence is a prefix, judged step by step), NO state merging; one simulated reply after every forwarded datagram",
+		"families":           famNames,
+		"policies":           "every allow/deny predicate on the N destinations of the family (2^N); the hook address is allowed",
 		"hook":               []string{"off", "rewrites every session's first destination to h"},
 		"maxSessionACLCache": maxSessionACLCache,
 		"eviction_note":      "where the destinations overflow the cache (thorough tier, capacity 3) the victim is whatever Go's map order picks; the oracle never depends on it",
 	}
-	p.Bounds = map[string]any{"sequence_len": length, "destinations": n}
-	nSeq := 1
-	for i := 0; i < length; i++ {
-		nSeq *= n + 1
-	}
+	p.Bounds = map[string]any{"sequence_len": maxLen, "destinations": maxN}
 	var item int64
 	seen := map[string]bool{}
-	for pol := 0; pol < 1<<n; pol++ {
-		for _, hk := range []bool{false, true} {
-			for s := 0; s < nSeq; s++ {
-				item++
-				if !env.Mine(item) {
-					continue
-				}
-				if item&1023 == 0 && env.Expired() {
-					p.Exhaustive = false
-					p.Note("deadline: cases before #%d of this shard completely covered", item)
-					return
-				}
-				c := &c08SeqCase{Cap: maxSessionACLCache, NDest: n, Policy: pol, Hook: hk}
-				for k, r := 0, s; k < length; k, r = k+1, r/(n+1) {
-					c.Seq = append(c.Seq, r%(n+1)-1)
-				}
-				p.Evaluations++
-				var verr error
-				var at int
-				var shape string
-				if val, stack := evidence.Catch(func() { verr, at, shape = c08RunSeq(c) }); val != nil {
-					verr = c08Bad("panic", "%v at %s", val, evidence.PanicSite(stack))
-				}
-				p.Count("operations", int64(len(c.Seq)))
-				p.Class(pol, hk, shape, verr == nil)
-				if p.Evaluations%251 == 7 {
-					p.Sample(c)
-				}
-				if verr != nil {
-					clause := "error"
-					var ce *c08Err
-					if errors.As(verr, &ce) {
-						clause = ce.Clause
-					}
-					// minimal case: the prefix up to the violating operation (reported once)
-					if at >= 0 && at < len(c.Seq) {
-						c.Seq = c.Seq[:at+1]
-					}
-					sig := fmt.Sprintf("sequences/cap=%d/%s/%s", maxSessionACLCache, clause, c)
-					if seen[sig] {
+	for _, fam := range fams {
+		n, length := fam.N, fam.Len
+		// operation codes: 0 cleanup, 1..n datagram to d_0..d_{n-1}, n+1..2n packet from d_0..d_{n-1}
+		nOps := n + 1
+		if fam.In {
+			nOps = 2*n + 1
+		}
+		nSeq := 1
+		for i := 0; i < length; i++ {
+			nSeq *= nOps
+		}
+		for pol := 0; pol < 1<<n; pol++ {
+			for _, hk := range []bool{false, true} {
+				for s := 0; s < nSeq; s++ {
+					item++
+					if !env.Mine(item) {
 						continue
 					}
-					seen[sig] = true
-					sh.Violate(p.Name, sig, fmt.Sprintf("%s at operation #%d of %s: %v", clause, at+1, c, verr), c)
-					if len(seen) >= 4 {
+					if item&1023 == 0 && env.Expired() {
 						p.Exhaustive = false
-						p.Note("stopped after 4 reported violations in this shard (remaining cases not run)")
+						p.Note("deadline: cases before #%d of this shard completely covered", item)
 						return
+					}
+					c := &c08SeqCase{Cap: maxSessionACLCache, NDest: n, Policy: pol, Hook: hk}
+					for k, r := 0, s; k < length; k, r = k+1, r/nOps {
+						if x := r%nOps - 1; x >= n {
+							c.Seq = append(c.Seq, -2-(x-n))
+						} else {
+							c.Seq = append(c.Seq, x)
+						}
+					}
+					p.Evaluations++
+					var verr error
+					var at int
+					var shape string
+					if val, stack := evidence.Catch(func() { verr, at, shape = c08RunSeq(c) }); val != nil {
+						verr = c08Bad("panic", "%v at %s", val, evidence.PanicSite(stack))
+					}
+					p.Count("operations", int64(len(c.Seq)))
+					p.Class(n, pol, hk, shape, verr == nil)
+					if p.Evaluations%251 == 7 {
+						p.Sample(c)
+					}
+					if verr != nil {
+						clause := "error"
+						var ce *c08Err
+						if errors.As(verr, &ce) {
+							clause = ce.Clause
+						}
+						// minimal case: the prefix up to the violating operation (reported once)
+						if at >= 0 && at < len(c.Seq) {
+							c.Seq = c.Seq[:at+1]
+						}
+						sig := fmt.Sprintf("sequences/cap=%d/%s/%s", maxSessionACLCache, clause, c)
+						if seen[sig] {
+							continue
+						}
+						seen[sig] = true
+						sh.Violate(p.Name, sig, fmt.Sprintf("%s at operation #%d of %s: %v", clause, at+1, c, verr), c)
+						if len(seen) >= 4 {
+							p.Exhaustive = false
+							p.Note("stopped after 4 reported violations in this shard (remaining cases not run)")
+							return
+						}
 					}
 				}
 			}
 		}
 	}
+}
+
+// c08SeqFamily: see c08Sequences.
+type c08SeqFamily struct {
+	N, Len int
+	In     bool
+}
+
+func (f c08SeqFamily) String() string {
+	ops := fmt.Sprintf("{d0..d%d,cleanup}", f.N-1)
+	if f.In {
+		ops = fmt.Sprintf("{d0..d%d,cleanup,in<-d0..in<-d%d}", f.N-1, f.N-1)
+	}
+	return fmt.Sprintf("N=%d,Len=%d,ops=%s", f.N, f.Len, ops)
 }
 
 func c08ReplaySeq(part string, raw json.RawMessage) (bool, bool, string) {
